@@ -69,7 +69,7 @@ StepClauses(p, r) ==
     \cup
     FailClause("C03.ReplyRecorded",
                IsReply(r) => /\ Len(r.obs.chron) = 1
-                             /\ r.obs.chron[1].alg = x /\ r.obs.chron[1].t = t /\ r.obs.chron[1].status = out)
+                             /\ r.obs.chron[1].alg = x /\ r.obs.chron[1].t = t /\ r.obs.chron[1].status = (IF out = "empty" THEN "success" ELSE out))
     \cup
     FailClause("C03.NoSpuriousRecord", ~IsReply(r) => (r.ev = "Reply" \/ Len(r.obs.chron) = 0))
     \cup
@@ -89,16 +89,16 @@ StepClauses(p, r) ==
     FailClause("C03.CrewView", \A u \in units : BusyOfSt(r.st)[u] = PlacedOf(r.st)[u])
     \cup
     FailClause("C03.Propagated",
-               (IsReply(r) /\ out = "success") =>
+               (IsReply(r) /\ IsOk(out)) =>
                   \A c \in C : Affected(c, t) \subseteq todo'[c] \cup doing'[c])
     \cup
     \* ---- C02 (step part)
     FailClause("C02.Complete",
-               (IsReply(r) /\ out = "success") =>
+               (IsReply(r) /\ IsOk(out)) =>
                   \A c \in C : Affected(c, t) \subseteq todo'[c] \cup doing'[c])
     \cup
     FailClause("C02.Minimal",
-               (r.ev = "Reply" /\ out = "success") => \A c \in Alg \ C : todo'[c] = todo[c])
+               (r.ev = "Reply" /\ IsOk(out)) => \A c \in Alg \ C : todo'[c] = todo[c])
     \cup
     FailClause("C02.OnlyReplyOrRequestAddsWork",
                (r.ev \notin {"Reply", "Run", "Reload"}) => \A a \in Alg : todo'[a] \subseteq todo[a])
@@ -115,10 +115,10 @@ StepClauses(p, r) ==
     \cup
     \* ---- C05
     FailClause("C05.Withdrawn",
-               (IsReply(r) /\ out # "success") => \A d \in Desc(x) : t \notin todo'[d])
+               (IsReply(r) /\ ~IsOk(out)) => \A d \in Desc(x) : t \notin todo'[d])
     \cup
     FailClause("C05.Frame",
-               (IsReply(r) /\ out # "success") =>
+               (IsReply(r) /\ ~IsOk(out)) =>
                   \A a \in Alg, s \in Tg :
                      (a \notin (Desc(x) \cup {x}) \/ s # t) =>
                         /\ (s \in todo[a] <=> s \in todo'[a])
@@ -126,12 +126,12 @@ StepClauses(p, r) ==
                         /\ fly'[<<a, s>>] = fly[<<a, s>>])
     \cup
     FailClause("C05.NothingTriggered",
-               (r.ev = "Reply" /\ out # "success") =>
+               (r.ev = "Reply" /\ ~IsOk(out)) =>
                   /\ \A a \in Alg : todo'[a] \subseteq todo[a]
                   /\ Len(r.obs.put) = 0 /\ Len(r.obs.written) = 0)
     \cup
     FailClause("C05.Recorded",
-               (IsReply(r) /\ out # "success") =>
+               (IsReply(r) /\ ~IsOk(out)) =>
                   /\ Len(r.obs.chron) = 1 /\ r.obs.chron[1].status = out
                   /\ r.obs.chron[1].alg = x /\ r.obs.chron[1].t = t)
 
